@@ -61,4 +61,12 @@ def main() -> int:
 
 
 if __name__ == '__main__':
-    sys.exit(main())
+    rc = main()
+    # Skip interpreter teardown: executions that were aborted mid-flight leave
+    # suspended coroutines and parked threads behind whose finalisers only
+    # produce "Exception ignored in ..." noise while builtins are torn down.
+    from vf.common import close_pools
+    close_pools()
+    sys.stdout.flush()
+    sys.stderr.flush()
+    os._exit(rc)
